@@ -152,6 +152,31 @@ where
     if let Out::Panic(m) = obs::show(p) {
         note(fail, "to_string()", input, &m);
     }
+    // Display into a sink that fails after n bytes: the error is propagated, nothing panics
+    if let Out::Panic(m) = guard("Display into failing sink", || {
+        struct Limited(usize);
+        impl std::fmt::Write for Limited {
+            fn write_str(&mut self, s: &str) -> std::fmt::Result {
+                if s.len() > self.0 {
+                    self.0 = 0;
+                    Err(std::fmt::Error)
+                } else {
+                    self.0 -= s.len();
+                    Ok(())
+                }
+            }
+        }
+        let mut failed = 0;
+        for n in [0usize, 1, 4, 5, 9, 17, 33, 70] {
+            use std::fmt::Write;
+            if write!(Limited(n), "{p}").is_err() {
+                failed += 1;
+            }
+        }
+        failed
+    }) {
+        note(fail, "Display into a failing sink", input, &m);
+    }
     if let Out::Panic(m) = guard("Debug", || format!("{p:?}").len()) {
         note(fail, "Debug", input, &m);
     }
@@ -335,6 +360,18 @@ fn documented_panics(ctx: &mut Ctx, r: &mut Rng) {
         q.contains_typed::<GoodKey>()
     }) {
         ctx.st.violation("C06.panic", "C06.panic:panicked:insert_typed-valid-key".into(), format!("insert_typed with a valid KEY panicked: {m}"), json!({"kind": "documented"}));
+    }
+    // small public helpers that take no input
+    if let Out::Panic(m) = guard("PurlField helpers", || {
+        use purl::PurlField::*;
+        let mut n = 0;
+        for f in [PackageType, Namespace, Name, Version, Subpath] {
+            n += f.name().len() + f.to_string().len() + <&'static str>::from(f).len() + format!("{f:?}").len();
+        }
+        let e = purl::ParseError::MissingRequiredField(Version);
+        n + e.to_string().len() + format!("{e:?}").len()
+    }) {
+        ctx.st.violation("C06.panic", "C06.panic:panicked:PurlField".into(), m, json!({"kind": "documented"}));
     }
     // Display of a user shape reporting an invalid type: panics (documented); everything else on it does not
     match obs::build(GenericPurlBuilder::new(BadType, v.as_str()).with_version(v.as_str())) {
